@@ -315,6 +315,34 @@ fn d_seal_open(o: &Ops, w: &[u8]) -> Opened {
     fin(r, m, &before)
 }
 
+// the same classic opens with an output buffer of the GENUINE message length (a caller who knows what it expects): for
+// truncated or extended ciphertexts the buffer and the ciphertext then disagree.  Sizing the buffer is the caller's side of
+// the classic contract, so a refusal by panic counts as a refusal here; what may not happen is Ok, or a leak
+fn d_sb_open_easy_g(o: &Ops, w: &[u8]) -> Opened {
+    let before = canary(o.msg.len()); let mut m = before.clone();
+    match catch(|| csb::crypto_secretbox_open_easy(&mut m, w, &o.nonce, &o.key)) { Ok(r) => fin(r, m, &before), Err(_) => Opened { ok: false, msg: vec![], leak: judge(&before, &m) } }
+}
+fn d_sb_open_detached_g(o: &Ops, w: &[u8]) -> Opened {
+    let before = canary(o.msg.len()); let mut m = before.clone();
+    match catch(std::panic::AssertUnwindSafe(|| csb::crypto_secretbox_open_detached(&mut m, &arr16(w), &w[MAC..], &o.nonce, &o.key))) { Ok(r) => fin(r, m, &before), Err(_) => Opened { ok: false, msg: vec![], leak: judge(&before, &m) } }
+}
+fn d_box_open_easy_g(o: &Ops, w: &[u8]) -> Opened {
+    let before = canary(o.msg.len()); let mut m = before.clone();
+    match catch(|| cb::crypto_box_open_easy(&mut m, w, &o.nonce, &o.spk, &o.rsk)) { Ok(r) => fin(r, m, &before), Err(_) => Opened { ok: false, msg: vec![], leak: judge(&before, &m) } }
+}
+fn d_box_open_detached_g(o: &Ops, w: &[u8]) -> Opened {
+    let before = canary(o.msg.len()); let mut m = before.clone();
+    match catch(std::panic::AssertUnwindSafe(|| cb::crypto_box_open_detached(&mut m, &arr16(w), &w[MAC..], &o.nonce, &o.spk, &o.rsk))) { Ok(r) => fin(r, m, &before), Err(_) => Opened { ok: false, msg: vec![], leak: judge(&before, &m) } }
+}
+fn d_box_open_detached_afternm_g(o: &Ops, w: &[u8]) -> Opened {
+    let before = canary(o.msg.len()); let mut m = before.clone();
+    match catch(std::panic::AssertUnwindSafe(|| cb::crypto_box_open_detached_afternm(&mut m, &arr16(w), &w[MAC..], &o.nonce, &o.pre_r))) { Ok(r) => fin(r, m, &before), Err(_) => Opened { ok: false, msg: vec![], leak: judge(&before, &m) } }
+}
+fn d_seal_open_g(o: &Ops, w: &[u8]) -> Opened {
+    let before = canary(o.msg.len()); let mut m = before.clone();
+    match catch(|| cb::crypto_box_seal_open(&mut m, w, &o.rpk, &o.rsk)) { Ok(r) => fin(r, m, &before), Err(_) => Opened { ok: false, msg: vec![], leak: judge(&before, &m) } }
+}
+
 // ---------------------------------------------------------------------------- object API, generic over containers
 /// fixed-length containers built from a slice of the right length
 pub trait Mk { fn mk(b: &[u8]) -> Self; }
@@ -570,21 +598,21 @@ pub fn enc_impls(cons: &str, v: &str) -> Vec<(&'static str, EncFn)> {
 
 pub fn open_impls(cons: &str, u: &str) -> Vec<(&'static str, OpenFn)> {
     let mut r: Vec<(&'static str, OpenFn)> = match (cons, u) {
-        ("secretbox", "open_easy") => vec![("dryoc crypto_secretbox_open_easy", d_sb_open_easy), ("sodium crypto_secretbox_open_easy", so_sb_open_easy)],
-        ("secretbox", "open_detached") => vec![("dryoc crypto_secretbox_open_detached", d_sb_open_detached), ("sodium crypto_secretbox_open_detached", so_sb_open_detached)],
+        ("secretbox", "open_easy") => vec![("dryoc crypto_secretbox_open_easy", d_sb_open_easy), ("dryoc crypto_secretbox_open_easy (buffer of the genuine length)", d_sb_open_easy_g), ("sodium crypto_secretbox_open_easy", so_sb_open_easy)],
+        ("secretbox", "open_detached") => vec![("dryoc crypto_secretbox_open_detached", d_sb_open_detached), ("dryoc crypto_secretbox_open_detached (buffer of the genuine length)", d_sb_open_detached_g), ("sodium crypto_secretbox_open_detached", so_sb_open_detached)],
         ("secretbox", "open_easy_inplace") => vec![("dryoc crypto_secretbox_open_easy_inplace", d_sb_open_easy_inplace)],
         ("secretbox", "obj_from_bytes") => vec![("VecBox::from_bytes+decrypt_to_vec", o_sb_from_bytes)],
         ("secretbox", "obj_parts") => vec![("DryocSecretBox<Stack,Vec>::from_parts+decrypt", stackvec::sb_open_parts), ("DryocSecretBox<[u8],Vec>::from_parts+decrypt", arrvec::sb_open_parts),
                                            ("VecBox::with_data_and_mac+decrypt", o_sb_with_data_and_mac)],
-        ("box", "open_easy") => vec![("dryoc crypto_box_open_easy", d_box_open_easy), ("sodium crypto_box_open_easy", so_box_open_easy), ("sodium crypto_box_open_easy_afternm", so_box_open_easy_afternm)],
-        ("box", "open_detached") => vec![("dryoc crypto_box_open_detached", d_box_open_detached), ("dryoc crypto_box_open_detached_inplace", d_box_open_detached_inplace),
-                                         ("dryoc crypto_box_open_detached_afternm", d_box_open_detached_afternm), ("dryoc crypto_box_open_detached_afternm_inplace", d_box_open_detached_afternm_inplace),
+        ("box", "open_easy") => vec![("dryoc crypto_box_open_easy", d_box_open_easy), ("dryoc crypto_box_open_easy (buffer of the genuine length)", d_box_open_easy_g), ("sodium crypto_box_open_easy", so_box_open_easy), ("sodium crypto_box_open_easy_afternm", so_box_open_easy_afternm)],
+        ("box", "open_detached") => vec![("dryoc crypto_box_open_detached", d_box_open_detached), ("dryoc crypto_box_open_detached (buffer of the genuine length)", d_box_open_detached_g), ("dryoc crypto_box_open_detached_inplace", d_box_open_detached_inplace),
+                                         ("dryoc crypto_box_open_detached_afternm", d_box_open_detached_afternm), ("dryoc crypto_box_open_detached_afternm (buffer of the genuine length)", d_box_open_detached_afternm_g), ("dryoc crypto_box_open_detached_afternm_inplace", d_box_open_detached_afternm_inplace),
                                          ("sodium crypto_box_open_detached", so_box_open_detached), ("sodium crypto_box_open_detached_afternm", so_box_open_detached_afternm)],
         ("box", "open_easy_inplace") => vec![("dryoc crypto_box_open_easy_inplace", d_box_open_easy_inplace)],
         ("box", "obj_from_bytes") => vec![("VecBox::from_bytes+decrypt_to_vec", o_db_from_bytes), ("VecBox::from_bytes+precalc_decrypt_to_vec", o_db_from_bytes_precalc)],
         ("box", "obj_parts") => vec![("DryocBox<Stack,Vec>::from_parts+decrypt", stackvec::db_open_parts), ("DryocBox<[u8],Vec>::from_parts+decrypt", arrvec::db_open_parts),
                                      ("DryocBox<Stack,Vec>::from_parts+precalc_decrypt", stackvec::db_open_parts_precalc), ("VecBox::new_with_data_and_mac+decrypt", o_db_with_data_and_mac)],
-        ("seal", "seal_open") => vec![("dryoc crypto_box_seal_open", d_seal_open), ("sodium crypto_box_seal_open", so_seal_open), ("sodium open_easy on c[32..] with nonce=BLAKE2b(epk||rpk)", so_seal_open_by_parts)],
+        ("seal", "seal_open") => vec![("dryoc crypto_box_seal_open", d_seal_open), ("dryoc crypto_box_seal_open (buffer of the genuine length)", d_seal_open_g), ("sodium crypto_box_seal_open", so_seal_open), ("sodium open_easy on c[32..] with nonce=BLAKE2b(epk||rpk)", so_seal_open_by_parts)],
         ("seal", "obj_unseal") => vec![("VecBox::from_sealed_bytes+unseal_to_vec", o_db_from_sealed_bytes), ("VecBox::new_with_epk_data_and_mac+unseal", o_db_with_epk),
                                        ("DryocBox<Stack,Vec>::from_parts+unseal", stackvec::db_unseal_parts), ("DryocBox<[u8],Vec>::from_parts+unseal", arrvec::db_unseal_parts)],
         _ => vec![],
@@ -800,4 +828,59 @@ pub fn secretbox_impls(o: &Ops) -> (Vec<(String, Result<Vec<u8>, String>)>, Opti
         }
     }
     (v, so_sb_easy(o).ok())
+}
+
+
+/// `aead-vectors <vectors.json> <out.json>` (C01): crafted (key, nonce, message) triples - e.g. those of tools/polycraft.py, whose
+/// Poly1305 run passes through rare accumulator states - through every secretbox route and every precomputed-key box
+/// route (the precomputed key IS the secretbox key), against the expected box and libsodium, and opened by every route.
+pub fn cmd_vectors(args: &[String]) {
+    let vecs: Value = serde_json::from_str(&std::fs::read_to_string(&args[0]).unwrap()).unwrap();
+    let mut rep = Report::new();
+    let mut rng = Rng::new(11);
+    let b = |v: &Value| -> Vec<u8> { v.as_array().unwrap().iter().map(|x| x.as_u64().unwrap() as u8).collect() };
+    for v in vecs.as_array().unwrap() {
+        let (key, nonce, msg, want) = (b(&v["key"]), b(&v["nonce"]), b(&v["msg"]), b(&v["box"]));
+        let mut o = mk_ops(&mut rng, 0);
+        o.key.copy_from_slice(&key); o.nonce.copy_from_slice(&nonce); o.msg = msg.clone();
+        o.pre_s = o.key; o.pre_r = o.key;
+        let d = json!({"target": v["target"], "blocks_before": v["blocks_before"], "tail": v["tail"], "len": msg.len()});
+        rep.case(&format!("{}|{}|{}", v["target"], v["blocks_before"], v["tail"]));
+        // libsodium agrees with the crafted expectation (else the vector itself is wrong)
+        match so_sb_easy(&o) { Ok(c) if c == want => {}, _ => { rep.fail("HARNESS: crafted vector differs from libsodium", d.clone()); continue; } }
+        let mut routes: Vec<(String, Result<Vec<u8>, String>)> = vec![];
+        for var in ["easy", "detached", "easy_inplace", "obj_to_bytes", "obj_into_vec", "obj_parts"] {
+            for (name, f) in enc_impls("secretbox", var) { if !name.starts_with("sodium") { routes.push((name.to_string(), f(&o))); } }
+        }
+        // precomputed-key box routes keyed directly with the same 32 bytes
+        routes.push(("crypto_box_detached_afternm".into(), { let mut c = vec![0u8; msg.len()]; let mut mac = [0u8; 16]; cb::crypto_box_detached_afternm(&mut c, &mut mac, &msg, &o.nonce, &o.key); Ok([&mac[..], &c[..]].concat()) }));
+        routes.push(("crypto_box_detached_afternm_inplace".into(), { let mut c = msg.clone(); let mut mac = [0u8; 16]; cb::crypto_box_detached_afternm_inplace(&mut c, &mut mac, &o.nonce, &o.key); Ok([&mac[..], &c[..]].concat()) }));
+        routes.push(("DryocBox::precalc_encrypt".into(), { let r: Result<DryocBox<S32, S16, Vec<u8>>, _> = DryocBox::precalc_encrypt(&msg, &S24::from(&o.nonce), &S32::from(&o.key)); r.map(|b| b.to_vec()).map_err(es) }));
+        for (name, got) in routes {
+            rep.evaluations += 1;
+            match got {
+                Ok(g) => if g != want { rep.fail(&format!("{}: bytes differ from libsodium on a crafted Poly1305 corner", name), d.clone()); },
+                Err(e) => rep.fail(&format!("{}: failed on a crafted Poly1305 corner", name), json!({"d": d, "err": e})),
+            }
+        }
+        for u in ["open_easy", "open_detached", "open_easy_inplace", "obj_from_bytes", "obj_parts"] {
+            for (name, f) in open_impls("secretbox", u) {
+                if name.starts_with("sodium") { continue; }
+                rep.evaluations += 1;
+                match catch(|| f(&o, &want)) {
+                    Ok(r) => if !r.ok || r.msg != msg { rep.fail(&format!("{}: does not open a box whose Poly1305 run passes a corner", name), d.clone()); },
+                    Err(p) => rep.fail(&format!("{}: panicked", name), json!({"d": d, "panic": p})),
+                }
+            }
+        }
+        { // precomputed-key opens
+            rep.evaluations += 2;
+            let mut m = vec![0u8; msg.len()];
+            if cb::crypto_box_open_detached_afternm(&mut m, &arr16(&want), &want[MAC..], &o.nonce, &o.key).is_err() || m != msg { rep.fail("crypto_box_open_detached_afternm: does not open a box whose Poly1305 run passes a corner", d.clone()); }
+            let bx: DryocBox<S32, S16, Vec<u8>> = DryocBox::from_parts(S16::from(&arr16(&want)), want[MAC..].to_vec(), None);
+            let r: Result<Vec<u8>, _> = bx.precalc_decrypt(&S24::from(&o.nonce), &S32::from(&o.key));
+            if r.ok() != Some(msg.clone()) { rep.fail("DryocBox::precalc_decrypt: does not open a box whose Poly1305 run passes a corner", d.clone()); }
+        }
+    }
+    rep.write(&args[1]);
 }
